@@ -61,7 +61,7 @@ impl serde::Serialize for BasicHeader {
 
         // Normalize logical_terminal to exactly 12 characters for JSON
         let normalized_logical_terminal = if self.logical_terminal.len() > 12 {
-            self.logical_terminal[..12].to_string()
+            self.logical_terminal.chars().take(12).collect::<String>()
         } else if self.logical_terminal.len() < 12 {
             format!("{:X<12}", self.logical_terminal)
         } else {
@@ -98,7 +98,7 @@ impl<'de> serde::Deserialize<'de> for BasicHeader {
 
         // Normalize logical_terminal to exactly 12 characters
         let normalized_logical_terminal = if helper.logical_terminal.len() > 12 {
-            helper.logical_terminal[..12].to_string()
+            helper.logical_terminal.chars().take(12).collect::<String>()
         } else if helper.logical_terminal.len() < 12 {
             format!("{:X<12}", helper.logical_terminal)
         } else {
@@ -209,7 +209,7 @@ impl std::fmt::Display for BasicHeader {
 
         // Pad or truncate logical_terminal to exactly 12 characters
         let logical_terminal = if self.logical_terminal.len() > 12 {
-            self.logical_terminal[..12].to_string()
+            self.logical_terminal.chars().take(12).collect::<String>()
         } else if self.logical_terminal.len() < 12 {
             // Pad with 'X' to reach 12 characters (standard for missing branch codes)
             format!("{:X<12}", self.logical_terminal)
@@ -220,13 +220,13 @@ impl std::fmt::Display for BasicHeader {
         // Ensure session_number is exactly 4 digits, left-padded with zeros
         let session_number = format!(
             "{:0>4}",
-            &self.session_number[..self.session_number.len().min(4)]
+            self.session_number.chars().take(4).collect::<String>()
         );
 
         // Ensure sequence_number is exactly 6 digits, left-padded with zeros
         let sequence_number = format!(
             "{:0>6}",
-            &self.sequence_number[..self.sequence_number.len().min(6)]
+            self.sequence_number.chars().take(6).collect::<String>()
         );
 
         write!(
@@ -269,7 +269,7 @@ impl serde::Serialize for InputApplicationHeader {
 
         // Normalize destination_address to exactly 12 characters for JSON
         let normalized_destination_address = if self.destination_address.len() > 12 {
-            self.destination_address[..12].to_string()
+            self.destination_address.chars().take(12).collect::<String>()
         } else if self.destination_address.len() < 12 {
             format!("{:X<12}", self.destination_address)
         } else {
@@ -313,7 +313,7 @@ impl<'de> serde::Deserialize<'de> for InputApplicationHeader {
 
         // Normalize destination_address to exactly 12 characters
         let normalized_destination_address = if helper.destination_address.len() > 12 {
-            helper.destination_address[..12].to_string()
+            helper.destination_address.chars().take(12).collect::<String>()
         } else if helper.destination_address.len() < 12 {
             format!("{:X<12}", helper.destination_address)
         } else {
@@ -634,12 +634,12 @@ impl std::fmt::Display for InputApplicationHeader {
         // Ensure message_type is exactly 3 characters
         let message_type = format!(
             "{:0>3}",
-            &self.message_type[..self.message_type.len().min(3)]
+            self.message_type.chars().take(3).collect::<String>()
         );
 
         // Pad or truncate destination_address to exactly 12 characters
         let destination_address = if self.destination_address.len() > 12 {
-            self.destination_address[..12].to_string()
+            self.destination_address.chars().take(12).collect::<String>()
         } else if self.destination_address.len() < 12 {
             format!("{:X<12}", self.destination_address)
         } else {
